@@ -237,6 +237,9 @@ func gen(r *sim.Rng, tier string) *sim.Case {
 			if r.Pct(15) {
 				op.D = r.N(dom + 1)
 			}
+			if op.D != 0 && r.Pct(12) {
+				op.S = "panic" // the D-th callback panics instead of returning false
+			}
 		case "RangeWithStart":
 			op.K = edge()
 			op.D = r.Pick(3, 1, 1, 1)
@@ -562,6 +565,8 @@ func execTyped[K any](c *sim.Case, ad *adapter[K], out *sim.WorkerOut, dg *engc.
 	return nil, nontrivial
 }
 
+type cbPanic struct{}
+
 // enumCheck runs one enumeration method and compares it with the model.
 func enumCheck[K any](ad *adapter[K], md *model, op sim.Op, idx int) *sim.Violation {
 	var ks []K
@@ -574,22 +579,39 @@ func enumCheck[K any](ad *adapter[K], md *model, op sim.Op, idx int) *sim.Violat
 		if calls > 4*domain {
 			return false
 		}
+		if op.S == "panic" && op.D != 0 && calls >= op.D {
+			panic(cbPanic{}) // the callback fails; the caller of the enumeration recovers
+		}
 		return op.D == 0 || calls < op.D
+	}
+	// guard runs an enumeration whose callback may panic (op.S == "panic") the way a caller
+	// that recovers would: afterwards the list must be as usable as after an early stop
+	guard := func(f func()) {
+		defer func() {
+			if r := recover(); r != nil {
+				if _, mine := r.(cbPanic); !mine {
+					panic(r)
+				}
+			}
+		}()
+		f()
 	}
 	want := md.keys()
 	hasVals := true
 	switch op.Op {
 	case "Range":
-		ad.l.Range(cb)
+		guard(func() { ad.l.Range(cb) })
 	case "All":
 		// the sequence value is obtained once and ranged twice: an iter.Seq2 is a value the
 		// caller may keep, and every range over it is "All"
 		seq := ad.l.All()
-		for k, v := range seq {
-			if !cb(k, v) {
-				break
+		guard(func() {
+			for k, v := range seq {
+				if !cb(k, v) {
+					break
+				}
 			}
-		}
+		})
 		var ks2 []K
 		var vs2 []int
 		for k, v := range seq {
@@ -604,7 +626,7 @@ func enumCheck[K any](ad *adapter[K], md *model, op sim.Op, idx int) *sim.Violat
 			return v
 		}
 	case "RangeWithStart":
-		ad.l.RangeWithStart(ad.mk(op.K), cb)
+		guard(func() { ad.l.RangeWithStart(ad.mk(op.K), cb) })
 		w2 := want[:0:0]
 		for _, k := range want {
 			if md.ord(k) >= md.ord(op.K) {
@@ -613,7 +635,7 @@ func enumCheck[K any](ad *adapter[K], md *model, op sim.Op, idx int) *sim.Violat
 		}
 		want = w2
 	case "RangeWithRange":
-		ad.l.RangeWithRange(ad.mk(op.K), ad.mk(op.Ks[0]), cb)
+		guard(func() { ad.l.RangeWithRange(ad.mk(op.K), ad.mk(op.Ks[0]), cb) })
 		w2 := want[:0:0]
 		for _, k := range want {
 			if md.ord(k) >= md.ord(op.K) && md.ord(k) < md.ord(op.Ks[0]) {
